@@ -633,8 +633,18 @@ impl<'a> Gen<'a> {
                     let is_else = i > 0 && i == narms - 1 && self.rng.chance(1, 2);
                     let mut conds = Vec::new();
                     if !is_else {
-                        let nc = self.rng.range(1, 2);
-                        for _ in 0..nc {
+                        let nc = self.rng.range(1, 3);
+                        for ci in 0..nc {
+                            if ci > 0 && self.rng.chance(1, 8) {
+                                // a later condition that fails when evaluated (all conditions of an arm are evaluated)
+                                let bad = match self.rng.below(3) {
+                                    0 => Self::call("not", vec![int_json("k", 1)]),
+                                    1 => Self::call("eq", vec![json!({"k": "str", "v": "a"}), int_json("k", 1)]),
+                                    _ => Self::call("no-such-function", vec![]),
+                                };
+                                conds.push(json!({"k": "bool", "value": bad}));
+                                continue;
+                            }
                             let opts: Vec<String> = self.caps.iter().filter(|c| c.1 == Quant::Opt).map(|c| c.0.clone()).collect();
                             let optvars: Vec<Var> = self.visible().into_iter().filter(|v| v.local && v.quant == Quant::Opt).collect();
                             if (!opts.is_empty() || !optvars.is_empty()) && self.rng.chance(1, 2) {
@@ -694,9 +704,17 @@ impl<'a> Gen<'a> {
                 for _ in 0..narms {
                     let re = *self.rng.pick(RE_POOL);
                     let saved = self.scan_groups;
-                    self.scan_groups = Some(count_groups(re));
-                    let stmts = self.block(vec![]);
+                    let ng = count_groups(re);
+                    self.scan_groups = Some(ng);
+                    let mut stmts = self.block(vec![]);
                     self.scan_groups = saved;
+                    if self.rng.chance(1, 2) {
+                        // record every group of the match (incl. groups that did not participate)
+                        let n = self.fresh_name("g");
+                        let attrs: Vec<J> = (0..ng).map(|k| json!({"name": format!("g{}", k), "value": {"k": "rcap", "i": k}})).collect();
+                        stmts.insert(0, json!({"k": "attrn", "node": {"k": "var", "name": n}, "attrs": attrs}));
+                        stmts.insert(0, json!({"k": "node", "var": {"k": "var", "name": n}}));
+                    }
                     arms.push(json!({"re": re, "stmts": stmts}));
                 }
                 Some(json!({"k": "scan", "value": subj, "arms": arms}))
